@@ -43,6 +43,18 @@ func main() {
 			}
 		}
 	}
+	if os.Getenv("VERIF_CALIB") == "C03" {
+		props.C03Calibrate()
+		return
+	}
+	if os.Getenv("VERIF_CALIB") == "C14" {
+		props.C14Calibrate()
+		return
+	}
+	if os.Getenv("VERIF_CALIB") == "baseline" {
+		props.C20DumpBaseline()
+		return
+	}
 	if os.Getenv("VERIF_CALIB") == "C04" {
 		props.C04Calibrate()
 		return
